@@ -1,1 +1,3 @@
 pub mod lin;
+pub mod model;
+pub mod text;
